@@ -51,6 +51,26 @@ deriving instance DecidableEq for Except
 @[simp] theorem tryE_ok {α β : Type} (a : α) (f : Err → β) (g : α → β) : tryE (.ok a) f g = g a := rfl
 @[simp] theorem tryE_error {α β : Type} (e : Err) (f : Err → β) (g : α → β) : tryE (.error e : Except Err α) f g = f e := rfl
 
+/-- what follows a state-passing call, per way it ended (the state it left is there in both cases) -/
+@[inline] def tryR {σ α β : Type} (x : Res σ α) (onErr : Err → σ → β) (onOk : α → σ → β) : β :=
+  match x with
+  | .raised e s => onErr e s
+  | .ok v s => onOk v s
+
+@[simp] theorem tryR_ok {σ α β : Type} (v : α) (s : σ) (f : Err → σ → β) (g : α → σ → β) : tryR (.ok v s) f g = g v s := rfl
+@[simp] theorem tryR_raised {σ α β : Type} (e : Err) (s : σ) (f : Err → σ → β) (g : α → σ → β) :
+    tryR (.raised e s : Res σ α) f g = f e s := rfl
+
+/-- reading an attribute that may not have been assigned yet, or an attribute / method of a value that may be `None`:
+    AttributeError -/
+def attrE {α : Type} (x : Option α) : Except Err α :=
+  match x with
+  | none => .error .attr
+  | some a => .ok a
+
+@[simp] theorem attrE_some {α : Type} (a : α) : attrE (some a) = .ok a := rfl
+@[simp] theorem attrE_none {α : Type} : attrE (none : Option α) = .error .attr := rfl
+
 /-! ### integers -/
 
 /-- bits of `a` that are not bits of `b` (`a & ~b` for naturals) -/
@@ -111,6 +131,9 @@ def toBytesE (n k : Int) : Except Err Bytes :=
   if k < 0 then .error .value
   else if n < 0 ∨ n ≥ 256 ^ k.toNat then .error .overflow
   else .ok (Bytes.ofNatBE k.toNat n.toNat)
+
+/-- `x.rstrip(chars)` on bytes: the trailing bytes that occur in `chars` are dropped -/
+def rstrip (x chars : Bytes) : Bytes := (x.reverse.dropWhile fun b => chars.contains b).reverse
 
 def dictGetE {κ ν : Type} (d : Dict κ ν) (k : κ) : Except Err ν :=
   match d k with
@@ -196,6 +219,80 @@ def zipBytes (a b : Bytes) : List (Nat × Nat) := List.zipWith (fun x y => (x.to
 /-- `bytes([…])`: ValueError unless every element is in range(256) -/
 def bytesOfE (l : List Int) : Except Err Bytes :=
   if l.all (fun v => decide (0 ≤ v ∧ v < 256)) then .ok (l.map fun v => UInt8.ofNat v.toNat) else .error .value
+
+/-- `n * x` for a str / bytes `x`: `n ≤ 0` gives the empty sequence -/
+def repeatSeq {α : Type} (n : Int) (x : List α) : List α := (List.replicate n.toNat x).flatten
+
+/-- `s[i]` on a str (code points): the one-character string -/
+def strItemE (s : List Nat) (i : Int) : Except Err (List Nat) :=
+  let j := if i < 0 then i + s.length else i
+  if j < 0 then .error .index
+  else match s[j.toNat]? with
+    | none => .error .index
+    | some c => .ok [c]
+
+/-- the UTF-8 bytes of one code point; `none`: a surrogate or a value beyond U+10FFFF (no Python str holds the latter) -/
+def utf8One (c : Nat) : Option Bytes :=
+  if c < 0x80 then some [UInt8.ofNat c]
+  else if c < 0x800 then some [UInt8.ofNat (0xC0 ||| (c >>> 6)), UInt8.ofNat (0x80 ||| (c &&& 0x3F))]
+  else if 0xD800 ≤ c ∧ c < 0xE000 then none
+  else if c < 0x10000 then some [UInt8.ofNat (0xE0 ||| (c >>> 12)), UInt8.ofNat (0x80 ||| ((c >>> 6) &&& 0x3F)), UInt8.ofNat (0x80 ||| (c &&& 0x3F))]
+  else if c < 0x110000 then some [UInt8.ofNat (0xF0 ||| (c >>> 18)), UInt8.ofNat (0x80 ||| ((c >>> 12) &&& 0x3F)),
+                                  UInt8.ofNat (0x80 ||| ((c >>> 6) &&& 0x3F)), UInt8.ofNat (0x80 ||| (c &&& 0x3F))]
+  else none
+
+/-- `bytes(s, 'utf-8')`: UnicodeEncodeError (a ValueError) on a surrogate -/
+def utf8E : List Nat → Except Err Bytes
+  | [] => .ok []
+  | c :: r =>
+    match utf8One c, utf8E r with
+    | some b, .ok rest => .ok (b ++ rest)
+    | _, _ => .error .value
+
+/-- a hash / HMAC object of `cryptography`: what `finalize()` computes from the bytes the `update()` calls appended -/
+structure Acc where
+  fin : Bytes → Bytes
+  buf : Bytes
+
+def Acc.update (a : Acc) (x : Bytes) : Acc := { a with buf := a.buf ++ x }
+def Acc.finalize (a : Acc) : Bytes := a.fin a.buf
+
+/-- `l[i]` on a list -/
+def listItemE {α : Type} (l : List α) (i : Int) : Except Err α :=
+  let j := if i < 0 then i + l.length else i
+  if j < 0 then .error .index
+  else match l[j.toNat]? with
+    | none => .error .index
+    | some a => .ok a
+
+/-- reading a local that no statement on the path has assigned: UnboundLocalError -/
+def unboundE {α : Type} (x : Option α) : Except Err α :=
+  match x with
+  | none => .error .unbound
+  | some a => .ok a
+
+@[simp] theorem unboundE_some {α : Type} (a : α) : unboundE (some a) = .ok a := rfl
+@[simp] theorem unboundE_none {α : Type} : unboundE (none : Option α) = .error .unbound := rfl
+
+/-- a value that must not be `None` where it is used (`bytearray.extend(None)`: TypeError) -/
+def someE {α : Type} (e : Err) (x : Option α) : Except Err α :=
+  match x with
+  | none => .error e
+  | some a => .ok a
+
+@[simp] theorem someE_some {α : Type} (e : Err) (a : α) : someE e (some a) = .ok a := rfl
+@[simp] theorem someE_none {α : Type} (e : Err) : someE e (none : Option α) = .error e := rfl
+
+/-- `x.hex()`: two lower-case hex digits per byte (as code points) -/
+def hexDigit (n : Nat) : Nat := if n < 10 then 48 + n else 87 + n
+def hexStr (x : Bytes) : List Nat := x.flatMap fun b => [hexDigit (b.toNat / 16), hexDigit (b.toNat % 16)]
+
+/-- `bytes(n)`: `n` zero bytes, ValueError for a negative `n` -/
+def zerosE (n : Int) : Except Err Bytes := if n < 0 then .error .value else .ok (List.replicate n.toNat 0)
+
+/-- `bytearray.append(v)`: ValueError unless `v` is in range(256) -/
+def appendByteE (x : Bytes) (v : Int) : Except Err Bytes :=
+  if v < 0 ∨ v ≥ 256 then .error .value else .ok (x ++ [UInt8.ofNat v.toNat])
 
 /-! ### loops -/
 
